@@ -51,6 +51,48 @@ TASKS += [
               "A = 1: 1 - sum w^2 = 1 - 1/n, so (1/n) S / (1 - 1/n) = S / (n - 1): the traditional n-1 denominator"),
 ]
 
+# ---------------------------------------------------------------------------------------------------------------------
+# per-azimuth accessors and the range update: row a / entry a / object a is the per-azimuth quantity of hvsrs[a] for the distribution asked for
+from pyvc.core import FuncV, Tup, NONE, DictV
+AR = z3.ArraySort(I, R)
+M = z3.Int("n_frequencies")
+DIST = z3.Int("distribution")
+MC = z3.Function("MC", I, I, AR)                # HvsrTraditional.mean_curve(distribution) of an object (its own contract: C05)
+MCPF, MCPA = z3.Function("MCPF", I, I, R), z3.Function("MCPA", I, I, R)      # its mean_curve_peak
+FREQ = z3.Const("frequency", AR)
+
+
+def _m_mean_curve(ex, st, args, kw, node):
+    return ex.alloc_arr(st, (M,), MC(args[0].id, kw["distribution"]), "real", "fresh", tag="mean_curve")
+
+
+def _m_mcp(ex, st, args, kw, node):
+    return Tup((MCPF(args[0].id, kw["distribution"]), MCPA(args[0].id, kw["distribution"])))
+
+
+def _by_az_inputs(ex, st):
+    facts = _inputs(ex, st)
+    o = st.heap[st.env["self"].oid].fields
+    o["n_azimuths"] = A
+    o["frequency"] = ex.alloc_arr(st, (M,), FREQ, "real", "param:self.frequency", tag="frequency")
+    st.env["distribution"] = DIST
+    st.env["M"] = M
+    return facts + [M >= 1, H == A]
+
+
+_GH = {"MC": lambda h, c: z3.Select(MC(h, DIST), c), "MCPF": lambda h: MCPF(h, DIST), "MCPA": lambda h: MCPA(h, DIST), "HID": lambda a: z3.Select(HV, a)}
+MCBA = Contract(qual="hvsrpy.hvsr_azimuthal.HvsrAzimuthal.mean_curve_by_azimuth", params=["self", "distribution"], ghost=_GH, make_inputs=_by_az_inputs,
+                ensures=["result.shape[0] == A and result.shape[1] == M", "forall(a, 0, A, forall(c, 0, M, result[a, c] == MC(HID(a), c)))"],
+                loops={0: ["forall(a, 0, _k0, forall(c, 0, M, array[a, c] == MC(HID(a), c)))"]}, stable_shapes=("array",), modifies=[],
+                notes="row a = mean curve of azimuth a for the distribution asked for")
+MCPBA = Contract(qual="hvsrpy.hvsr_azimuthal.HvsrAzimuthal.mean_curve_peak_by_azimuth", params=["self", "distribution"], ghost=_GH, make_inputs=_by_az_inputs,
+                 ensures=["len(result[0]) == A and len(result[1]) == A", "forall(a, 0, A, result[0][a] == MCPF(HID(a)) and result[1][a] == MCPA(HID(a)))"],
+                 loops={0: ["forall(a, 0, _k0, peak_frequencies[a] == MCPF(HID(a)) and peak_amplitudes[a] == MCPA(HID(a)))"]},
+                 stable_shapes=("peak_frequencies", "peak_amplitudes"), modifies=[], notes="entry a = peak of the mean curve of azimuth a")
+_REG = {"HvsrTraditional.mean_curve": FuncV(_m_mean_curve, "mean_curve"), "HvsrTraditional.mean_curve_peak": FuncV(_m_mcp, "mean_curve_peak")}
+TASKS += [FunctionTask(MCBA, registry=_REG, clauses=["per-azimuth mean curves in azimuth order"]),
+          FunctionTask(MCPBA, registry=_REG, clauses=["per-azimuth mean-curve peaks in azimuth order"])]
+
 META = dict(
     level="other",
     explanation="proved: _compute_statistical_weights returns, azimuth-major, 1/(A n_a) for each of the n_a accepted windows of azimuth a (loop invariant over "
